@@ -39,6 +39,11 @@ TWO_CORE = [acc("ethos-u65-512"), dedicated("ethos-u65-512"), acc("ethos-u65-512
 CASCADE = [acc(a, "--optimise", "Size") for a in ("ethos-u55-128", "ethos-u55-64", "ethos-u55-256", "ethos-u55-32", "ethos-u65-256")]
 FAST = [dedicated("ethos-u65-256", 40000), dedicated("ethos-u65-512", 100000), dedicated("ethos-u65-256", 20000),
         dedicated("ethos-u65-512", 200000), dedicated("ethos-u65-256", 393216), acc("ethos-u55-128")]
+# cascades that keep the minimal stripes: `--optimise Size`, half of them with a small arena cache on top
+CASCADE_MIN = [acc("ethos-u55-128", "--optimise", "Size"), acc("ethos-u55-64", "--optimise", "Size", "--arena-cache-size", "16384"),
+               acc("ethos-u55-256", "--optimise", "Size"), acc("ethos-u65-256", "--optimise", "Size", "--arena-cache-size", "65536"),
+               acc("ethos-u55-32", "--optimise", "Size"), acc("ethos-u55-128", "--optimise", "Size", "--arena-cache-size", "4096"),
+               acc("ethos-u65-512", "--optimise", "Size")]
 # lookup tables: with (> 16 banks) and without reserved table banks
 LUT = [acc("ethos-u55-128"), acc("ethos-u65-256"), acc("ethos-u55-64"), acc("ethos-u55-32"), acc("ethos-u55-256"),
        acc("ethos-u65-512"), u55_mode("ethos-u55-64", "Ethos_U55_High_End_Embedded", "Shared_Sram"),
@@ -58,6 +63,8 @@ TABLE = {
     "fc1_two_core": (12, TWO_CORE), "near_scale": (15, ROTATE),
     "multi_out_cpu": (24, MIXED), "slice_masks": (40, MIXED),
     "rank_sweep": (252, ROTATE),        # 21 kinds x ranks 1-6 x the two last-axis variants (gen_ranksweep.py)
+    "resize_cascade": (36, CASCADE_MIN),    # resize 2x -> stride {3,2,1} consumer in one cascade (gen_resizecasc.py), 7 templates: coprime to the cycles
+    "io_passthrough": (36, MIXED),      # 12 kinds x 6 surroundings (gen_iopass.py): interface tensors no operator stands behind
     "shared_consts": (15, ROTATE),      # 12 axes of harness/netgen_shared.py (one per weight re-laying rewrite) + 3 drawn
 }
 DEFAULT = (3, ROTATE)
